@@ -51,116 +51,20 @@ def run(ctx, ck):
     ck.rule('R-EFFECT.wavelength', 'wavelength constants: single writer, frequency-only')
 
     # ---------------------------------------------------------------- D1
+    # decided on the symbolic walk of the constructor (temporaries, helpers that build one axis matrix,
+    # tables of axis planes, matrices patched into an identity literal all give the same closed form):
+    # on every path each matrix attribute is  F2 @ F1 @ F0  (or F0.T @ F1.T @ F2.T) where F_K is np.eye(3) when
+    # component K of the rotation is zero and otherwise the right-handed rotation about axis K by
+    # rotation[K] / 180 * pi
+    from ..symx import SymExec
+    from ..poly import poly_roles, cancel, Poly
     f = m.func('mininec.Rotation_Matrix.__init__')
-    fl = ctx.flow(f)
-    blocks = [n for n in f.body() if isinstance(n, ast.If)]
-    found = {}
-    def helper_trig(call):
-        """(K, ok) if call is <helper>(rotation[K]) and the helper returns (cos(x), sin(x)) with
-        x = argument / 180 * pi"""
-        if not (isinstance(call, ast.Call) and len(call.args) == 1 and isinstance(call.args[0], ast.Subscript)
-                and isinstance(call.args[0].slice, ast.Constant)):
-            return None
-        name = call.func.attr if isinstance(call.func, ast.Attribute) else (
-            call.func.id if isinstance(call.func, ast.Name) else None)
-        h = m.resolve_method('Rotation_Matrix', name) if name else None
-        if h is None:
-            return None
-        hp = h.bound_params()
-        rets = [r_ for r_ in walk_no_nested(h.node) if isinstance(r_, ast.Return)]
-        if len(hp) != 1 or len(rets) != 1 or not isinstance(rets[0].value, ast.Tuple) or len(rets[0].value.elts) != 2:
-            return None
-        hfl = ctx.flow(h)
-        c_, s_ = [hfl.inline(e_, hfl.node_id_of(rets[0])) for e_ in rets[0].value.elts]
+    rparam = f.params[1] if len(f.params) > 1 else 'rotation'
+    rpaths = [p_ for p_ in SymExec(ctx, f, bind_loops=True, effects=True, depth=3, max_paths=2000).run() if p_.end != 'raise']
+    if not rpaths:
+        raise AnalysisError('%s: no path returns' % f.qual)
 
-        def arg_of(e_, fn):
-            if isinstance(e_, ast.Call) and (dotted(e_.func) or '').endswith(fn) and len(e_.args) == 1:
-                return e_.args[0]
-            return None
-        ca, sa = arg_of(c_, 'cos'), arg_of(s_, 'sin')
-        if ca is None or sa is None or norm(ca) != norm(sa):
-            return None
-        pr = product_of(ca)
-        nn, dd = pr.texts()
-        okang = nn == sorted([hp[0], 'np.pi']) and not dd and abs(pr.coef - 1 / 180) < 1e-15
-        return call.args[0].slice.value, okang
-
-    for b in blocks:
-        t = b.test
-        if not (isinstance(t, ast.Subscript) and isinstance(t.slice, ast.Constant)):
-            continue
-        K = t.slice.value
-        base = norm(t.value)
-        mats = [s for s in b.body if isinstance(s, ast.Assign) and isinstance(s.value, ast.Call)
-                and (dotted(s.value.func) or '').endswith('array')]
-        ang = [s for s in b.body if isinstance(s, ast.Assign) and isinstance(s.targets[0], ast.Name)
-               and not isinstance(s.value, ast.Call)]
-        unp = [s for s in b.body if isinstance(s, ast.Assign) and isinstance(s.targets[0], ast.Tuple)
-               and isinstance(s.value, ast.Call)]
-        trig = {}
-        if len(ang) == 1 and len(mats) == 1:
-            avar = ang[0].targets[0].id
-            pr = product_of(ang[0].value)
-            nn, dd = pr.texts()
-            ok = nn == sorted(['%s[%d]' % (base, K), 'np.pi']) and not dd and abs(pr.coef - 1 / 180) < 1e-15
-            ck.ob('R-LIT.rotation', 'axis%s|angle' % K, ok, f.loc(ang[0]),
-                  'angle = %s (component %d, degrees -> radians)' % (norm(ang[0].value), K))
-        elif len(unp) == 1 and len(mats) == 1 and len(unp[0].targets[0].elts) == 2:
-            ht = helper_trig(unp[0].value)
-            ok = ht is not None and ht[0] == K and ht[1] and norm(unp[0].value.args[0].value) == base
-            ck.ob('R-LIT.rotation', 'axis%s|angle' % K, ok, f.loc(unp[0]),
-                  'cos / sin of component %d (degrees -> radians) through %s' % (K, norm(unp[0].value.func)))
-            cn, sn = [e_.id for e_ in unp[0].targets[0].elts]
-            trig = {cn: 'c', sn: 's'}
-            avar = None
-        else:
-            ck.ob('R-LIT.rotation', 'axis%s|shape' % K, False, f.loc(b), 'unexpected block shape')
-            continue
-
-        def kind_of(e_):
-            if trig:
-                neg = False
-                x_ = e_
-                if isinstance(x_, ast.UnaryOp) and isinstance(x_.op, ast.USub):
-                    neg = True
-                    x_ = x_.operand
-                if isinstance(x_, ast.Name) and x_.id in trig:
-                    return ('-' if neg else '') + trig[x_.id]
-                return entry_kind(e_, '\x00')
-            return entry_kind(e_, avar)
-        lit = mats[0].value.args[0]
-        rows = lit.elts if isinstance(lit, ast.List) else []
-        okm = len(rows) == 3 and all(isinstance(r, ast.List) and len(r.elts) == 3 for r in rows)
-        why = 'not a 3x3 literal'
-        if okm:
-            M = [[kind_of(e) for e in r.elts] for r in rows]
-            a, b1, c1 = K, (K + 1) % 3, (K + 2) % 3
-            want = {}
-            for i in range(3):
-                for j in range(3):
-                    want[(i, j)] = '0'
-            want[(a, a)] = '1'
-            want[(b1, b1)] = 'c'
-            want[(c1, c1)] = 'c'
-            want[(c1, b1)] = 's'
-            want[(b1, c1)] = '-s'
-            diff = [(i, j, M[i][j], want[(i, j)]) for i in range(3) for j in range(3) if M[i][j] != want[(i, j)]]
-            okm = not diff
-            why = 'entries %s' % M if okm else 'entries differ from a right-handed rotation about axis %d at %s' % (K, diff)
-        ck.ob('R-LIT.rotation', 'axis%s|matrix' % K, okm, f.loc(mats[0]), why)
-        found[K] = mats[0].targets[0].id
-    ck.floor('axis rotation blocks', len(found), 3)
-    asg = assigns_to_attr(f, 'self.m')
-    ok = len(asg) == 1 and len(found) == 3 and norm(asg[0].value) == '%s @ %s @ %s' % (found[2], found[1], found[0])
-    ck.ob('R-LIT.rotation', 'product', ok, f.loc(asg[0] if asg else None),
-          'self.m = %s (X applied first, then Y, then Z)' % (norm(asg[0].value) if asg else '?'))
-    # identity defaults
-    ids = [s for s in f.body() if isinstance(s, ast.Assign) and len(s.targets) == 3]
-    ok = len(ids) == 1 and norm(ids[0].value) == 'np.eye(3)' and \
-        sorted(norm(t) for t in ids[0].targets) == sorted(found.values())
-    ck.ob('R-LIT.rotation', 'identity-default', ok, f.loc(), 'unused axes default to the identity')
-    # every matrix attribute is the product Z @ Y @ X or its transpose X.T @ Y.T @ Z.T
-    def mat_chain(e):
+    def chain(e):
         out = []
 
         def rec(x):
@@ -168,25 +72,119 @@ def run(ctx, ck):
                 rec(x.left)
                 rec(x.right)
             else:
-                out.append(norm(x))
+                out.append(x)
         rec(e)
         return out
-    if len(found) == 3:
-        fwd = [found[2], found[1], found[0]]
-        bwd = [found[0] + '.T', found[1] + '.T', found[2] + '.T']
-        mats = {}
-        for s_ in f.body():
-            if isinstance(s_, ast.Assign) and isinstance(s_.targets[0], ast.Attribute) and \
-               any(isinstance(x, ast.BinOp) and isinstance(x.op, ast.MatMult) for x in ast.walk(s_.value)):
-                ch = mat_chain(s_.value)
-                kind = 'forward' if ch == fwd else ('transpose' if ch == bwd else None)
-                mats[norm(s_.targets[0])] = kind
-                if norm(s_.targets[0]) != 'self.m':
-                    ck.ob('R-LIT.rotation', 'matrix|%s' % norm(s_.targets[0]), kind is not None, f.loc(s_),
-                          '%s = %s is %s' % (norm(s_.targets[0]), ' @ '.join(ch), kind or
-                                             'neither Z@Y@X nor its transpose X.T@Y.T@Z.T'))
-    else:
-        mats = {}
+
+    def is_eye(x):
+        return isinstance(x, ast.Call) and (dotted(x.func) or '').split('.')[-1] in ('eye', 'identity') and \
+            len(x.args) == 1 and isinstance(x.args[0], ast.Constant) and x.args[0].value == 3
+
+    def axis_matrix(x, K):
+        """None if x is the right-handed rotation about axis K by rotation[K] degrees, else what is wrong"""
+        if not (isinstance(x, ast.Call) and (dotted(x.func) or '').split('.')[-1] == 'array' and x.args and
+                isinstance(x.args[0], ast.List) and len(x.args[0].elts) == 3 and
+                all(isinstance(r_, ast.List) and len(r_.elts) == 3 for r_ in x.args[0].elts)):
+            return 'not a 3x3 literal: %s' % norm(x)[:60]
+        want_ang = cancel(poly_roles(ast.parse('%s[%d] / 180 * np.pi' % (rparam, K), mode='eval').body, {}))
+
+        def kind(e_):
+            neg = False
+            if isinstance(e_, ast.UnaryOp) and isinstance(e_.op, ast.USub):
+                neg, e_ = True, e_.operand
+            if isinstance(e_, ast.Constant) and e_.value in (0, 1) and not isinstance(e_.value, bool):
+                return ('-' if neg and e_.value else '') + str(int(e_.value))
+            if isinstance(e_, ast.Call) and (dotted(e_.func) or '').split('.')[-1] in ('cos', 'sin') and len(e_.args) == 1:
+                try:
+                    okang = cancel(poly_roles(e_.args[0], {}) - want_ang).t == {}
+                except (ValueError, ZeroDivisionError):
+                    okang = False
+                if not okang:
+                    return 'angle(%s)' % norm(e_.args[0])[:40]
+                return ('-' if neg else '') + (dotted(e_.func) or '').split('.')[-1][0]
+            return '?(%s)' % norm(e_)[:30]
+        M = [[kind(e_) for e_ in r_.elts] for r_ in x.args[0].elts]
+        a_, b1, c1 = K, (K + 1) % 3, (K + 2) % 3
+        want = {(i_, j_): '0' for i_ in range(3) for j_ in range(3)}
+        want[(a_, a_)] = '1'
+        want[(b1, b1)] = 'c'
+        want[(c1, c1)] = 'c'
+        want[(c1, b1)] = 's'
+        want[(b1, c1)] = '-s'
+        diff = [(i_, j_, M[i_][j_], want[(i_, j_)]) for i_ in range(3) for j_ in range(3) if M[i_][j_] != want[(i_, j_)]]
+        return None if not diff else 'entries differ from a right-handed rotation about axis %d by %s[%d] degrees at %s' % (
+            K, rparam, K, diff[:3])
+    axis_bad = {0: None, 1: None, 2: None}
+    axis_seen = {0: 0, 1: 0, 2: 0}
+    ident_bad = None
+    ident_seen = 0
+    prod_bad = None
+    mats = {}
+    n_m = 0
+    for p_ in rpaths:
+        nonzero = {}
+        for K in range(3):
+            v_ = [b_ for t_, b_ in p_.conds if isinstance(b_, bool) and t_ in ('%s[%d]' % (rparam, K), '%s[%d] != 0' % (rparam, K))]
+            z_ = [not b_ for t_, b_ in p_.conds if isinstance(b_, bool) and t_ == '%s[%d] == 0' % (rparam, K)]
+            v_ += z_
+            nonzero[K] = v_[-1] if v_ else None
+        for key_, val_, st_ in p_.stores:
+            if not (key_.startswith('self.') and any(isinstance(x_, ast.BinOp) and isinstance(x_.op, ast.MatMult) for x_ in ast.walk(val_))):
+                continue
+            ch = chain(val_)
+            kind_ = None
+            if len(ch) == 3:
+                tr = [isinstance(x_, ast.Attribute) and x_.attr == 'T' for x_ in ch]
+                if not any(tr):
+                    order, facs, kind_ = (2, 1, 0), ch, 'forward'
+                elif all(tr):
+                    order, facs, kind_ = (0, 1, 2), [x_.value for x_ in ch], 'transpose'
+            if kind_ is None:
+                if key_ == 'self.m':
+                    prod_bad = prod_bad or ('self.m = %s is not a product of the three axis rotations' % norm(val_)[:80], st_)
+                mats.setdefault(key_, None)
+                continue
+            if key_ == 'self.m':
+                n_m += 1
+                if kind_ != 'forward':
+                    prod_bad = prod_bad or ('self.m is the transposed product', st_)
+            okchain = True
+            for K, F in zip(order, facs):
+                if key_ != 'self.m':
+                    # other matrix attributes: judged as a whole (same three factors, plain or transposed)
+                    if not (is_eye(F) and nonzero[K] is False) and not (not is_eye(F) and axis_matrix(F, K) is None):
+                        okchain = False
+                    continue
+                if is_eye(F):
+                    ident_seen += 1
+                    if nonzero[K] is not False:
+                        ident_bad = ident_bad or ('axis %d is the identity although %s[%d] is not known to be zero on the path %s'
+                                                  % (K, rparam, K, [c_ for c_ in p_.conds if isinstance(c_[1], bool)]), st_)
+                        okchain = False
+                else:
+                    axis_seen[K] += 1
+                    w_ = axis_matrix(F, K)
+                    if w_ is None and nonzero[K] is False:
+                        w_ = None       # (a rotation by zero degrees is the identity as well)
+                    if w_ is not None:
+                        axis_bad[K] = axis_bad[K] or (w_, st_)
+                        okchain = False
+            prev = mats.get(key_, kind_)
+            mats[key_] = kind_ if (okchain and prev == kind_) else None
+    ck.floor('axis rotation blocks', sum(1 for K in range(3) if axis_seen[K]), 3)
+    for K in range(3):
+        ck.ob('R-LIT.rotation', 'axis%s|matrix' % K, axis_bad[K] is None, f.loc(axis_bad[K][1]) if axis_bad[K] and axis_bad[K][1] is not None else f.loc(),
+              'right-handed rotation about axis %d by %s[%d] / 180 * pi on %d paths' % (K, rparam, K, axis_seen[K])
+              if axis_bad[K] is None else axis_bad[K][0])
+    ck.ob('R-LIT.rotation', 'product', prod_bad is None and n_m == len(rpaths), f.loc(prod_bad[1]) if prod_bad and prod_bad[1] is not None else f.loc(),
+          'self.m = Z @ Y @ X on all %d paths (X applied first, then Y, then Z)' % len(rpaths) if prod_bad is None and n_m == len(rpaths)
+          else (prod_bad[0] if prod_bad else 'self.m is assigned on %d of %d paths' % (n_m, len(rpaths))))
+    ck.ob('R-LIT.rotation', 'identity-default', ident_bad is None and ident_seen > 0, f.loc(),
+          'unused axes default to the identity' if ident_bad is None else ident_bad[0])
+    for key_, kind_ in sorted(mats.items()):
+        if key_ != 'self.m':
+            ck.ob('R-LIT.rotation', 'matrix|%s' % key_, kind_ is not None, f.loc(),
+                  '%s is %s' % (key_, kind_ or 'neither Z@Y@X nor its transpose X.T@Y.T@Z.T of the three axis rotations'))
     ap = m.func('mininec.Rotation_Matrix.apply')
     rets = [r_ for r_ in walk_no_nested(ap.node) if isinstance(r_, ast.Return) and r_.value is not None]
     ok = bool(rets)
@@ -297,33 +295,49 @@ def run(ctx, ck):
         own = [op for op in ('rotate', 'translate', 'scale') if op in m.cls(cname).methods]
         ck.ob('R-SIB.transform', '%s|inherits-transforms' % cname, not own, ci.loc(),
               '%s inherits rotate/translate/scale from Curve' % cname if not own else 'overrides %s' % own)
-    # dispatchers: the operation is applied to every object (tag None) or to by_tag[tag]
-    from ..rules import self_closure
-    for op, arg in (('rotate', 'rmatrix'), ('translate', 'translation'), ('scale', 'factor')):
+    # dispatchers, on the symbolic walk (helpers taking the operation as a callable looked through): with
+    # tag None the operation is applied once to every object of the container, otherwise once to by_tag[tag]
+    import re as _re
+    for op, arg in (('rotate', 'Rotation_Matrix(rotation)'), ('translate', 'translation'), ('scale', 'factor')):
         g = m.func('mininec.Geo_Container.%s' % op)
-        cl = self_closure(ctx, g)
-        calls_ = [c for c in walk_no_nested(g.node) if isinstance(c, ast.Call) and isinstance(c.func, ast.Attribute)
-                  and c.func.attr == op and [norm(a) for a in c.args] == [arg]
-                  and norm(c.func.value) not in ('self',)]
-        txt_all = ' ; '.join(norm(x.node) for x in cl)
-        has_lookup = 'self.by_tag[tag]' in txt_all
-        has_all = any(isinstance(l, ast.For) and norm(l.iter) == 'self' for x in cl for l in loops_in(x.node)) or \
-            any(isinstance(r_, ast.Return) and norm(r_.value) == 'self' for x in cl for r_ in walk_no_nested(x.node))
-        has_test = 'tag is None' in txt_all or 'tag is not None' in txt_all
-        ok = bool(calls_) and has_lookup and has_all and has_test
-        # every receiver is the loop variable of a loop over the selected objects, or by_tag[tag]
-        for c in calls_:
-            rv = c.func.value
-            if norm(rv) == 'self.by_tag[tag]':
+        bad = None
+        seen_all = seen_one = 0
+        n_mat = set()
+        for p_ in SymExec(ctx, g, bind_loops=True, effects=True, max_paths=2000).run():
+            if p_.end == 'raise':
                 continue
-            lp = parent(c)
-            while lp is not None and not isinstance(lp, ast.For):
-                lp = parent(lp)
-            ok = ok and lp is not None and isinstance(rv, ast.Name) and norm(lp.target) == rv.id
-        ck.ob('R-SIB.dispatch', g.qual, ok, g.loc(), 'tag None -> every object, else by_tag[tag]')
-    g = m.func('mininec.Geo_Container.rotate')
-    ok = any(norm(s) == 'rmatrix = Rotation_Matrix(rotation)' for s in g.body())
-    ck.ob('R-SIB.dispatch', g.qual + '|matrix', ok, g.loc(), 'one Rotation_Matrix(rotation) shared by all objects')
+            none_ = [b_ for t_, b_ in p_.conds if isinstance(b_, bool) and t_ == 'tag is None']
+            if not none_:
+                bad = bad or 'the tag is not tested on the path %s' % (p_.conds[:4],)
+                continue
+            calls_ = [ev for ev in p_.events if ev[0] == 'call' and isinstance(ev[1].func, ast.Attribute) and
+                      ev[1].func.attr == op and norm(ev[1].func.value) != 'self']
+            ent = [t_ for k_, t_ in p_.conds if k_ == 'loop' and t_ in ('self', 'self.geo')]
+            skp = [t_ for k_, t_ in p_.conds if k_ == 'loop-skipped' and t_ in ('self', 'self.geo')]
+            for ev in calls_:
+                n_mat.add(norm(ev[1].args[0]) if ev[1].args else '?')
+            if none_[-1]:
+                if skp and not ent:
+                    if calls_:
+                        bad = bad or 'operation applied although the container is empty'
+                    continue
+                ok_ = len(calls_) == 1 and bool(ent) and _re.match(r'^(self|self\.geo)\[_k\d+\]$', norm(calls_[0][1].func.value)) \
+                    and calls_[0][3] and calls_[0][3][-1] in ('self', 'self.geo') and [norm(a_) for a_ in calls_[0][1].args] == [arg]
+                seen_all += 1
+                if not ok_:
+                    bad = bad or 'without a tag: %s' % [norm(ev[1])[:60] for ev in calls_]
+            else:
+                ok_ = len(calls_) == 1 and norm(calls_[0][1].func.value) == 'self.by_tag[tag]' and not calls_[0][3] and \
+                    [norm(a_) for a_ in calls_[0][1].args] == [arg]
+                seen_one += 1
+                if not ok_:
+                    bad = bad or 'with a tag: %s' % [norm(ev[1])[:60] for ev in calls_]
+        ok = bad is None and seen_all >= 1 and seen_one >= 1
+        ck.ob('R-SIB.dispatch', g.qual, ok, g.loc(), 'tag None -> every object, else by_tag[tag]' if ok else
+              'tag None -> every object, else by_tag[tag]: %s' % (bad or 'a case is missing (all: %d, tagged: %d)' % (seen_all, seen_one)))
+        if op == 'rotate':
+            ck.ob('R-SIB.dispatch', g.qual + '|matrix', n_mat == {'Rotation_Matrix(rotation)'}, g.loc(),
+                  'one Rotation_Matrix(rotation) shared by all objects: %s' % sorted(n_mat))
 
     # ---------------------------------------------------------------- D3
     mainf = m.func('mininec.main')
